@@ -62,14 +62,13 @@ Definition armodel (resid : bool) (nval nparams : Z) (mean ini : T) (params inpu
           reliability_table[(ncol+1) x 7], crps_decompos[5])
    [sim] holds each row as the kernel sees it after its optional qsort. *)
 Definition crps (nval ncol use_weights : Z) (nobs : Z) (sim : list T) (nweights : Z)
-    (table decompos : list bool) : step (list bool * list bool) :=
-  let st := (table, decompos) in
+    (table : list bool) (ndec : Z) : step (list bool) :=
   (* seven malloc((ncol+1)*sizeof(double)) *)
   let! nloc := chk32 (ncol + 1) in
   let ens0 := repeat (n0 N) (Z.to_nat nloc) in
-  do! _ := forZ 0 (ncol + 1) (fun j (u : list bool * list bool) =>
-             let! _ := touch "a,b,g,o" nloc j in Next u) st in
-  do! _ := forZ 0 nval (fun i (u : list bool * list bool) =>
+  do! _ := forZ 0 (ncol + 1) (fun j (u : list bool) =>
+             let! _ := touch "a,b,g,o" nloc j in Next u) table in
+  do! _ := forZ 0 nval (fun i (u : list bool) =>
       (* copy of the row *)
       match forZ 0 ncol (fun j ens =>
               let! ij := mul32 ncol i in
@@ -79,7 +78,7 @@ Definition crps (nval ncol use_weights : Z) (nobs : Z) (sim : list T) (nweights 
       | Ret c _ => Ret c u
       | Next ens | Brk ens =>
         let! _ := (if use_weights =? 1 then touch "weights_vector" nweights i else Ok tt) in
-        do! _ := forZ 0 (ncol - 1) (fun j (u : list bool * list bool) =>
+        do! _ := forZ 0 (ncol - 1) (fun j (u : list bool) =>
             let! e1 := rd "ensemb" (n0 N) ens (j + 1) in
             let! e0 := rd "ensemb" (n0 N) ens j in
             if nltb N e1 e0 then Ret 33 u       (* EDOM *)
@@ -93,28 +92,28 @@ Definition crps (nval ncol use_weights : Z) (nobs : Z) (sim : list T) (nweights 
         let! _ := touch "a" nloc ncol in
         let! _ := touch "o" nloc 0 in
         let! _ := touch "o" nloc ncol in
-        forZ 0 i (fun k (u : list bool * list bool) =>
+        forZ 0 i (fun k (u : list bool) =>
           let! _ := touch "obs" nobs k in
           let! _ := (if use_weights =? 1 then touch "weights_vector" nweights k else Ok tt) in
           Next u) u
-      end) st in
-  finish 0 (forZ 0 (ncol + 1) (fun j (u : list bool * list bool) =>
+      end) table in
+  do! t := forZ 0 (ncol + 1) (fun j (t : list bool) =>
     let! _ := touch "a,b,g,o,r,c" nloc j in
-    let! j7 := mul32 j 7 in
-    let! t := mark "reliability_table" (fst u) j7 in
+    let! j7 := mul32 j CRPS_TABLE_NCOLS in
+    let! t := mark "reliability_table" t j7 in
     let! t := mark "reliability_table" t (j7 + 1) in
     let! t := mark "reliability_table" t (j7 + 2) in
     let! t := mark "reliability_table" t (j7 + 3) in
     let! t := mark "reliability_table" t (j7 + 4) in
     let! t := mark "reliability_table" t (j7 + 5) in
     let! t := mark "reliability_table" t (j7 + 6) in
-    let! d := mark "crps_decompos" (snd u) 0 in
-    let! d := mark "crps_decompos" d 1 in
-    Next (t, d)) st
-  |> fun m => seq m (fun u =>
-    let! d := mark "crps_decompos" (snd u) 2 in
-    let! d := mark "crps_decompos" d 3 in
-    let! d := mark "crps_decompos" d 4 in Next (fst u, d))).
+    let! _ := touch "crps_decompos" ndec 0 in
+    let! _ := touch "crps_decompos" ndec 1 in
+    Next t) table in
+  let! _ := touch "crps_decompos" ndec 2 in
+  let! _ := touch "crps_decompos" ndec 3 in
+  let! _ := touch "crps_decompos" ndec 4 in
+  Ret 0 t.
 
 (* ================================================================== *)
 (* c_ensrank(eps, nval, ncol, sim, fmat[nval x nval], ranks)            *)
@@ -154,22 +153,21 @@ Definition ensrank (eps : T) (nval ncol : Z) (nsim : Z) (fmat ranks : list bool)
 Definition adtest (n : Z) (x : list T) (outputs : list bool) : step (list bool) :=
   let! o := mark "outputs" outputs 0 in
   let! o := mark "outputs" o 1 in
-  do! s := forZ 0 n (fun i (s : T * list bool) =>
+  match forZ 0 n (fun i (prev : T) =>
       let! xi := rd "unifdata" (n0 N) x i in
-      if nltb N xi (n0 N) || nltb N (n1 N) xi then Ret 1 s
-      else if nisnan N xi then Ret 1 s
-      else if nltb N xi (fst s) then Ret 1 s
+      if nltb N xi (n0 N) || nltb N (n1 N) xi then Ret 1 prev
+      else if nisnan N xi then Ret 1 prev
+      else if nltb N xi prev then Ret 1 prev
       else
         let! _ := rd "unifdata" (n0 N) x (n - 1 - i) in
-        Next (xi, snd s)) (nopp N (ndiv N (n1 N) (nofZ N (10 ^ 300))), o) in
-  let! o := mark "outputs" (snd s) 0 in
-  let! o := mark "outputs" o 1 in
-  Ret 0 (fst s, o)
-  |> fun m => match m with
-              | Next s | Brk s => Next (snd s)
-              | Ret c s => Ret c (snd s)
-              | Fail e => Fail e
-              end.
+        Next xi) (nopp N (ndiv N (n1 N) (nofZ N (10 ^ 300)))) with
+  | Fail e => Fail e
+  | Ret c _ => Ret c o
+  | Next _ | Brk _ =>
+      let! o := mark "outputs" o 0 in
+      let! o := mark "outputs" o 1 in
+      Ret 0 o
+  end.
 
 (* ================================================================== *)
 (* c_paretofront(nval, ncol, orientation, data, isdominated): the domination test reads
